@@ -29,7 +29,7 @@ def case(draw, tier):
     maxrows = 6 if tier == "quick" else 14
     nf = draw(st.sampled_from([1, 2, 3, 4, 5]))
     hdr = ["a", "b", "c", "d", "e"][:nf]
-    p = draw(gen.pool(CELL, 2, 3))
+    p = draw(gen.twinned_pool(CELL, 2, 3))
     cell = st.sampled_from(p)
     # draw rows from a small pool of rows so that whole rows repeat across the two tables
     rowpool = draw(st.lists(st.lists(cell, min_size=nf, max_size=nf), min_size=1, max_size=4))
